@@ -180,9 +180,13 @@ class Message:
                             break
                     break
         try:
-            return return_type(hdr)
+            answer = return_type(hdr)
         except NameError:
-            return Message(hdr)
+            answer = Message(hdr)
+        # The answer subclasses set a proxiable default for newly built
+        # messages; an answer to a request mirrors the request's P bit
+        answer.header.is_proxyable = self.header.is_proxyable
+        return answer
 
     @classmethod
     def from_bytes(cls, msg_data: bytes, plain_msg: bool = False) -> _AnyMessageType:
